@@ -27,6 +27,7 @@ pub mod exec;
 pub mod known;
 pub mod opcase;
 pub mod runner;
+pub mod modelroute;
 pub mod scale;
 pub mod vals;
 pub mod fuzzing;
